@@ -91,6 +91,22 @@ def tld_domains(tier, rng, mdl):
         for t in wt:
             out.append(w + b"." + t)
             out.append(b"x." + w + b"." + t)
+    # many labels (the class depends on the last label whatever their number: 1 ... 127 one- and two-character labels, <= 253 octets)
+    picks = []
+    bycls = {}
+    for n2, _, cls in mdl.rows:
+        bycls.setdefault(cls, []).append(n2)
+    for cls in sorted(bycls):
+        picks.append(sorted(bycls[cls], key=len)[0])
+    picks += [b"zzzz", b"example", b"test"]
+    for t in picks:
+        for k in (5, 31, 32, 33, 62, 63, 64, 65, 66, 100, 120, 125, 126, 127):
+            d = b"a." * (k - 1) + t
+            if len(d) <= 253:
+                out.append(d)
+            d2 = b".".join(b"l%d" % (i % 10) for i in range(k - 1)) + b"." + t
+            if len(d2) <= 253:
+                out.append(d2)
     # unlisted labels whose digest (ten well-known 32-bit string hashes) equals that of a row of the same length
     import json, os
     try:
@@ -275,6 +291,16 @@ def special_domains(tier, rng):
                 out.add(b"q." + lab + b"." + t)
                 if tier != "quick":
                     out.add(b"q.w." + lab + b"." + t)
+    # many labels in front (the rule looks at the last one or two labels whatever their number), and reserved words far to the left
+    for t in suffixes + [b"examplx.com", b"tests", b"example.de", b"com"]:
+        for k in (5, 31, 32, 33, 60, 61, 62, 63, 64, 65, 66, 100, 120, 123, 124, 125, 126):
+            d = b"a." * k + t
+            if len(d) <= 253:
+                out.add(d)
+            for w in (b"example.com", b"test", b"localhost"):
+                d = b"a." * (k // 2) + w + b"." + b"a." * (k - k // 2) + t
+                if len(d) <= 253:
+                    out.add(d)
     # all case patterns of the reserved part (n <= 10 letters)
     for s in suffixes:
         letters = [i for i, c in enumerate(s) if 0x61 <= c <= 0x7a]
